@@ -71,9 +71,11 @@ namespace Givaro {
     inline typename MOD::Element&
     MOD::init (Element& x, const Integer& y) const
     {
-        x = Caster<Element>(y % _p);
-        if (x < 0) x = Caster<Element>(x + _p);
-        return x;
+        // canonical remainder in [0,p): `y % _p` truncates towards zero and its sign is lost
+        // (or wraps) when Element is unsigned or narrower than the promoted operand
+        Integer r;
+        Integer::mod(r, y, Integer(_p));
+        return x = Caster<Element>(r);
     }
 
     TMPL
